@@ -186,3 +186,105 @@ func VH_C20_Inscribe() {
 	}
 	vreach("inscribe-done")
 }
+
+// C20-O1b: the two-dummy variant of accepting a listing: inputs [dummy, dummy, ordinal, payment...],
+// outputs [dummies passed through, buyer's ordinal, seller payment, change].
+func VH_C20_ListAccept2D() {
+	ctx := context.Background()
+	sellerKey, sellerLock := vkey("seller-key")
+	buyerKey, buyerLock := vkey("buyer-key")
+	sellerU := bt.Unlocker(&unlocker.Simple{PrivateKey: sellerKey})
+	buyerU := bt.Unlocker(&unlocker.Simple{PrivateKey: buyerKey})
+	price := vnondetRange("price", 1, 1000000000)
+	ordUTXO := &bt.UTXO{TxID: vnondetBytes("ord-txid", 32, 32), Vout: vnondetU32("ord-vout"), LockingScript: sellerLock, Satoshis: 1}
+	sellerOut := &bt.Output{Satoshis: price, LockingScript: sellerLock}
+	pstx, err := ListOrdinalForSale(ctx, &ListOrdinalArgs{SellerReceiveOutput: sellerOut, OrdinalUTXO: ordUTXO, OrdinalUnlocker: sellerU})
+	vassert(err == nil, "C20: listing succeeds")
+	if err != nil {
+		return
+	}
+	n := vnondetLen("nutxos", 3, vparam("U2", 3))
+	var utxos []*bt.UTXO
+	for i := 0; i < n; i++ {
+		utxos = append(utxos, vutxo("fund", buyerLock, buyerU, 0, 2000000000))
+	}
+	_, dummyLock := vkey("dummy-key")
+	_, changeLock := vkey("change-key")
+	fq := vquoteC()
+	tx, err := AcceptOrdinalSaleListing2Dummies(ctx, &ValidateListingArgs{ListedOrdinalUTXO: ordUTXO},
+		&AcceptListingArgs{PSTx: pstx, UTXOs: utxos, BuyerReceiveOrdinalScript: buyerLock, DummyOutputScript: dummyLock, ChangeScript: changeLock, FQ: fq})
+	if err != nil {
+		vreach("list2d-accept-error")
+		return
+	}
+	vassert(len(tx.Inputs) == n+1 && len(tx.Outputs) >= 3, "C20: two-dummy listing acceptance has the expected shape")
+	prevs := make([]*bt.Output, len(tx.Inputs))
+	for i, in := range tx.Inputs {
+		prevs[i] = &bt.Output{Satoshis: in.PreviousTxSatoshis, LockingScript: in.PreviousTxScript}
+	}
+	vassert(vbytesEq(tx.Inputs[2].PreviousTxID(), ordUTXO.TxID) && tx.Inputs[2].PreviousTxOutIndex == ordUTXO.Vout, "C20: two-dummy: the ordinal is input 2")
+	prevs[2] = &bt.Output{Satoshis: 1, LockingScript: sellerLock}
+	vassert(vverifyAll(tx, prevs), "C20: every input of the accepted two-dummy listing verifies")
+	vassert(tx.Outputs[2].Satoshis == price && vbytesEq(*tx.Outputs[2].LockingScript, *sellerLock), "C20: two-dummy: seller payment output unchanged at the committed index")
+	// FIFO: the ordinal satoshi (first satoshi of input 2) lands in output 1
+	vassert(tx.Outputs[0].Satoshis == tx.Inputs[0].PreviousTxSatoshis+tx.Inputs[1].PreviousTxSatoshis, "C20: two-dummy: satoshis before the buyer output equal satoshis before the ordinal input")
+	vassert(tx.Outputs[1].Satoshis == 1 && vbytesEq(*tx.Outputs[1].LockingScript, *buyerLock), "C20: two-dummy: ordinal satoshi routed to the buyer script")
+	in, out := vsums(tx)
+	fees, ferr := tx.EstimateFeesPaid(fq)
+	vassert(ferr == nil && in >= out && in-out >= fees.TotalFeePaid, "C20: accepted two-dummy listing pays at least the quoted fee")
+	vreach("list2d-accept-ok")
+}
+
+// C20-O2b: the two-dummy variant of bidding and accepting the bid.
+func VH_C20_BidAccept2D() {
+	ctx := context.Background()
+	sellerKey, sellerLock := vkey("seller-key")
+	buyerKey, buyerLock := vkey("buyer-key")
+	sellerU := bt.Unlocker(&unlocker.Simple{PrivateKey: sellerKey})
+	buyerU := bt.Unlocker(&unlocker.Simple{PrivateKey: buyerKey})
+	bid := vnondetRange("bid", 1, 1000000000)
+	ordTxID := vnondetBytes("ord-txid", 32, 32)
+	ordUTXO := &bt.UTXO{TxID: ordTxID, Vout: vnondetU32("ord-vout"), LockingScript: sellerLock, Satoshis: 1}
+	n := vnondetLen("nutxos", 3, vparam("U2", 3))
+	var utxos []*bt.UTXO
+	for i := 0; i < n; i++ {
+		utxos = append(utxos, vutxo("fund", buyerLock, buyerU, 0, 2000000000))
+	}
+	_, dummyLock := vkey("dummy-key")
+	_, changeLock := vkey("change-key")
+	fq := vquoteC()
+	pstx, err := MakeBidToBuy1SatOrdinal2Dummies(ctx, &MakeBid2DArgs{BidAmount: bid, OrdinalTxID: hex.EncodeToString(ordTxID), OrdinalVOut: ordUTXO.Vout,
+		BidderUTXOs: utxos, BuyerReceiveOrdinalScript: buyerLock, DummyOutputScript: dummyLock, ChangeScript: changeLock, FQ: fq})
+	if err != nil {
+		vreach("bid2d-error")
+		return
+	}
+	// what the seller knows about the spent outputs, in input order
+	prevU := []*bt.UTXO{utxos[0], utxos[1], ordUTXO}
+	prevU = append(prevU, utxos[2:]...)
+	tx, err := AcceptBidToBuy1SatOrdinal2Dummies(ctx, &ValidateBid2DArgs{PreviousUTXOs: prevU, BidAmount: bid, ExpectedFQ: fq},
+		&AcceptBid2DArgs{PSTx: pstx, SellerReceiveOrdinalScript: sellerLock, OrdinalUnlocker: sellerU})
+	if err != nil {
+		vreach("bid2d-accept-error")
+		return
+	}
+	vassert(len(tx.Inputs) == n+1 && len(tx.Outputs) >= 3, "C20: accepted two-dummy bid has the expected shape")
+	prevs := make([]*bt.Output, len(tx.Inputs))
+	for i := range tx.Inputs {
+		prevs[i] = &bt.Output{Satoshis: prevU[i].Satoshis, LockingScript: prevU[i].LockingScript}
+	}
+	vassert(vverifyAll(tx, prevs), "C20: every input of the accepted two-dummy bid verifies")
+	vassert(tx.Outputs[2].Satoshis == bid && vbytesEq(*tx.Outputs[2].LockingScript, *sellerLock), "C20: two-dummy: seller is paid the bid amount to the seller script")
+	vassert(tx.Outputs[0].Satoshis == prevU[0].Satoshis+prevU[1].Satoshis, "C20: two-dummy bid: satoshis before the buyer output equal satoshis before the ordinal input")
+	vassert(tx.Outputs[1].Satoshis == 1 && vbytesEq(*tx.Outputs[1].LockingScript, *buyerLock), "C20: two-dummy bid: ordinal satoshi routed to the buyer script")
+	var in, out uint64
+	for _, u := range prevU {
+		in += u.Satoshis
+	}
+	for _, o := range tx.Outputs {
+		out += o.Satoshis
+	}
+	fees, ferr := tx.EstimateFeesPaid(fq)
+	vassert(ferr == nil && in >= out && in-out >= fees.TotalFeePaid, "C20: accepted two-dummy bid pays at least the quoted fee")
+	vreach("bid2d-accept-ok")
+}
